@@ -174,7 +174,7 @@ def check_one(U, n, edges, links, origins, dests, st: Stats, record=True):
         if (len(msgs) > 0) != (not valid):
             problems.append(("C06/messages", f"history {history}: verdict {ok} with messages {msgs}", history))
         try:
-            r = net.is_valid(raises=True)
+            r = net.is_valid(True) if history == 2 else net.is_valid(raises=True)  # positional form too
             raised = None
         except InvalidNetworkError as e:
             raised = e
@@ -260,6 +260,8 @@ def explore(tier, seed, nproc):
         "graphs with more nodes/links than the stated bounds are not enumerated",
         "the 'randomly beyond the bound' clause of the property is not implemented (sampling is another family)",
         "element objects are reused between graphs of one shard (construction does not mutate them)",
+        "the smaller graphs are enumerated three times: distinct names, every element named 'x', and every element an "
+        "instance of a trivial user-defined subclass of its library class",
     ]
     return st, cov, assumptions
 
